@@ -26,7 +26,8 @@ class Unsupported(Exception):
 
 # ---------------------------------------------------------------------------- reader
 def read_form(text, pos):
-    """read one datum starting at text[pos:]; returns (datum, newpos).  datum: list | str (symbol) |
+    """read one datum starting at text[pos:]; returns (datum, newpos).  A dot in a list is kept as the symbol "."
+    (the translator rejects it as an unknown expression).  datum: list | str (symbol) |
     ('quote', d) as list ['quote', d].  Handles ; comments and strings (strings become ('str', s))."""
     n = len(text)
 
@@ -61,8 +62,6 @@ def read_form(text, pos):
                     raise Unsupported("unterminated list")
                 if text[i] in ")]":
                     return out, i + 1
-                if text[i] == "." and i + 1 < n and text[i + 1] in " \t\n":
-                    raise Unsupported("dotted pair")
                 d, i = rd(i)
                 out.append(d)
         if c in ")]":
